@@ -184,6 +184,11 @@ func (e *Engine) opQOpen(c *cursor) *Violation {
 	}
 	oq := &OpenQ{Seq: seq, ExpSet: set, Pos: -1, Slot: slot, Cached: cached, Rel: -1}
 	e.pushOpen(oq, r2)
+	if (e.step+slot)%3 == 0 {
+		// Count is asked for the first time only after the iteration has started (see opQNext)
+		oq.LateCount = true
+		return nil
+	}
 	if cnt := r2.Query.Count(); cnt != len(seq) {
 		return e.viol("query-pos", op, "Count()=%d before iteration, reference walk visited %d", cnt, len(seq))
 	}
@@ -342,6 +347,21 @@ func (e *Engine) opQNext(c *cursor) *Violation {
 			return e.exhausted(i)
 		}
 		oq.Pos++
+		if oq.LateCount && arg%2 == 0 {
+			oq.LateCount = false
+			h := q.Entity()
+			var cnt int
+			if msg, p := call(func() { cnt = q.Count() }); p {
+				return e.viol("unexpected-panic", nil, "Query.Count in the middle of an iteration panicked: %s", msg)
+			}
+			if cnt != total {
+				return e.viol("query-pos", nil, "Count()=%d, asked for the first time at position %d, the query visits %d entities", cnt, oq.Pos, total)
+			}
+			if q.Entity() != h {
+				return e.viol("query-pos", nil, "Count() in the middle of an iteration moved the query from %v to %v", h, q.Entity())
+			}
+			e.St.Probes["count-first-asked-mid-iteration"]++
+		}
 		return e.advanced(i, q.Entity())
 	case act < 70: // Step
 		k := 1 + arg%4
